@@ -94,6 +94,15 @@ var progSpecs = []progSpec{
 	{"app", "", "SetConfigLoader", "aopt_SetConfigLoader"},
 	{"app", "", "AddConfigLoader", "aopt_AddConfigLoader"},
 	{"app", "", "SetConfigBinder", "aopt_SetConfigBinder"},
+	{"util/framework_helper", "", "GetComponentNameWithAlias", "name_GetComponentNameWithAlias"},
+	{"util/framework_helper", "", "GetComponentName", "name_GetComponentName"},
+	{"component_definition", "Meta", "Name", "meta_Name"},
+	{"component_definition", "Meta", "SetName", "meta_SetName"},
+	{"component_definition", "Meta", "IsAlias", "meta_IsAlias"},
+	{"component_definition", "Meta", "dependOn", "meta_dependOn"},
+	{"component_definition", "Meta", "GetDependents", "meta_GetDependents"},
+	{"component_definition", "Meta", "SetProperties", "meta_SetProperties"},
+	{"component_definition", "Meta", "GetComponentProperties", "meta_GetComponentProperties"},
 }
 
 // conversions whose single argument is passed through unchanged
@@ -240,6 +249,10 @@ func (t *tr) expr(e ast.Expr) string {
 				return fmt.Sprintf("(.glob %s)", lq(p))
 			}
 		}
+		if p, root, ok := dotted(x.X); ok && root == t.recv && t.recv != "" && strings.Contains(p, ".") {
+			// an element of a FIELD of the receiver (a map or slice kept in the object): the primitive ".getidx"
+			return fmt.Sprintf("(.call \".getidx\" [%s, %s])", t.expr(x.X), t.expr(x.Index))
+		}
 		return fmt.Sprintf("(.idx %s %s)", t.expr(x.X), t.expr(x.Index))
 	case *ast.SelectorExpr:
 		if p, root, ok := dotted(x); ok {
@@ -259,6 +272,9 @@ func (t *tr) expr(e ast.Expr) string {
 	case *ast.CompositeLit:
 		if _, ok := x.Type.(*ast.ArrayType); ok {
 			return fmt.Sprintf("(.sliceLit %s)", t.list(x.Elts))
+		}
+		if st, ok := x.Type.(*ast.StructType); ok && len(x.Elts) == 0 && (st.Fields == nil || len(st.Fields.List) == 0) {
+			return "(.call \"struct{}{}\" [])" // the empty struct value: a primitive
 		}
 		return t.unsupported("composite literal", x)
 	case *ast.CallExpr:
@@ -530,6 +546,10 @@ func (t *tr) stmt(s ast.Stmt) []string {
 							return []string{fmt.Sprintf(".store (.glob \"self\") %s %s", lq(p[len(root)+1:]), t.expr(x.Rhs[0]))}
 						}
 						return []string{fmt.Sprintf(".store %s %s %s", t.expr(sel.X), lq(sel.Sel.Name), t.expr(x.Rhs[0]))}
+					}
+					if ix, ok := x.Lhs[0].(*ast.IndexExpr); ok {
+						// x[k] = v (a map or slice element): the primitive ".setidx" on the container, the key and the value
+						return []string{fmt.Sprintf(".expr (.call \".setidx\" [%s, %s, %s])", t.expr(ix.X), t.expr(ix.Index), t.expr(x.Rhs[0]))}
 					}
 				}
 			}
